@@ -26,6 +26,7 @@ type Job struct {
 	TransLo int      ` + "`json:\"trans_lo\"`" + `
 	TransHi int      ` + "`json:\"trans_hi\"`" + `
 	Fuel    int      ` + "`json:\"fuel\"`" + `
+	Repeat      int        ` + "`json:\"repeat\"`" + `
 	Histories   [][]string ` + "`json:\"histories\"`" + `
 	HistoryMode string     ` + "`json:\"history_mode\"`" + `
 }
@@ -165,6 +166,42 @@ func main() {
 			end()
 			rt.Cur = nil
 			enc.Encode(Out{Pkg: j.Pkg, Input: in, Kind: "run", Res: &res, Job: jobNo, Pos: pos})
+		}
+		if j.Repeat > 0 && len(j.Inputs) > 0 {
+			// one parser (global) or one context (-o) re-initialised j.Repeat times: the last round
+			// of results is reported, plus the first deviation from the first round if there is one
+			var ctx interface{}
+			if p.Object {
+				ctx = p.NewCtx()
+			}
+			first := make([]string, len(j.Inputs))
+			var last []rt.Result
+			devAt, devIn := -1, ""
+			for n := 0; n < j.Repeat && devAt < 0; n++ {
+				last = last[:0]
+				for k, in := range j.Inputs {
+					run := rt.Begin(fuel)
+					begin(len(j.Inputs)+k, in)
+					var res rt.Result
+					if p.Object {
+						res = p.RunCtx(ctx, in, false, run, n > 0 || k > 0)
+					} else {
+						res = p.Run(in, false, run, true)
+					}
+					end()
+					rt.Cur = nil
+					sg := fmt.Sprintf("%s|%d|%v|%d|%s", res.Class, res.Fetches, res.Reds, res.N, res.S)
+					if n == 0 {
+						first[k] = sg
+					} else if sg != first[k] && devAt < 0 {
+						devAt, devIn = n*len(j.Inputs)+k, in
+						last = append(last, res)
+						break
+					}
+					last = append(last, res)
+				}
+			}
+			enc.Encode(Out{Pkg: j.Pkg, Kind: "repeat", Results: last, Job: jobNo, Pos: devAt, Input: devIn})
 		}
 		for hi, h := range j.Histories {
 			var rs []rt.Result
